@@ -24,6 +24,11 @@ def cases(seed, tier):
     pick = sysm if tier == "thorough" else rng.sample(sysm, 1100)
     for name, code in pick:
         out.append({"name": "sys/full/" + name, "code": code, "config": sp.FULL_CFG})
+    # direct eval configured as a bare (allowed-without-callee) method: it must stay a DIRECT eval
+    ecfg = dict(sp.FULL_CFG, csiMethods=sp.FULL_CFG["csiMethods"] + [{"src": "eval", "allowedWithoutCallee": True}])
+    for k, code in enumerate(["function m(name) { const secret = 'local value'; return eval('sec' + 'ret') + eval(a); }",
+                              "function m() { let t = a + b; return eval('t') + t; }"]):
+        out.append({"name": "special/eval/%d" % k, "code": code, "config": ecfg})
     n_random = 700 if tier == "quick" else 12000
     for i in range(n_random):
         g = gen.Gen(rng, max_depth=rng.choice([2, 3, 3, 4]))
